@@ -344,7 +344,7 @@ class SepWorld(BaseWorld):
         mass = a * pk.MW
         if ev.get('strict') in (None, True) or b[w] > 0:
             frac = mass[w] / mass.sum() if mass.sum() else 0.0
-            if abs(frac - mc) > 1e-9:
+            if abs(frac - mc) > 1e-6:
                 self.fail('moisture', f'retentate moisture fraction is {frac}, requested {mc}', {'event': ev})
         return 'ok'
 
